@@ -40,6 +40,21 @@ CHECKS.update({
    note="Acceptance is asserted only for documented-insignificant differences; pairs that share a normal form carry no expectation. Normal forms of private leaf encodings come from the observed format."),
 })
 
+CHECKS.update({
+ "C07": dict(cat="fault_enumeration", design="DESIGN.md §3 C07",
+   technique="fault enumeration over generated files: every cut offset of every generated file (property-based generation of the values)",
+   text="For generated values in all five containers (plain, schema-less, bzip2, encrypted stream, encrypted file) every strict prefix is loaded: the result must be an error or the original value, never another value and never a panic. Cut offsets are enumerated completely per file up to 768 B (quick) / 4 kB (thorough); larger files (multi-chunk encrypted streams) use all offsets near frame boundaries plus a stride.",
+   note="Values are sampled (generated); exhaustive only over cut offsets of each generated file. 'Equal value' is judged after the documented reload model (version-dependent fields)."),
+ "C08": dict(cat="fault_enumeration", design="DESIGN.md §3 C08",
+   technique="fault injection: instrumented Read/Write with proptest-generated chunking/Interrupted schedules and enumerated fault offsets and error kinds",
+   text="Writer faults at every offset (six error kinds), flush failures, reader faults at every consumed offset, and generated schedules of short transfers and Interrupted errors, for plain, bzip2 and encrypted streams: a fault must surface as Err (no panic, no success), accepted bytes must be a prefix of the fault-free output (encrypted: whole chunks decrypting to a prefix), and without faults bytes and loaded values must not depend on the schedule.",
+   note="Hangs would be reported as inconclusive (exit 2), not as violations. For types containing hash containers byte equality is relaxed to length/decodability because iteration order differs between saves."),
+ "C14": dict(cat="fault_enumeration", design="DESIGN.md §3 C14",
+   technique="fault enumeration over generated encrypted files: byte modifications, truncations, chunk-level edits, wrong keys; independent frame parser on top of ring",
+   text="Generated values saved as multi-chunk encrypted streams and through save_encrypted_file; every byte position is modified (3 fixed + 1 generated flip; all 255 values on the nonce and first/last length fields), every truncation length, whole-chunk deletion/duplication/swap, wrong passwords and flipped key bits: all must give Err; the intact data with the right key must load.",
+   note="Duplicating the final chunk (pure append after the logical end of the stream) is counted as excluded: no reader requests those bytes. File-based modifications are strided for files > 200 B."),
+})
+
 NOT_YET = {
 }
 
